@@ -211,6 +211,125 @@ class Dispatch:
             return ("base", [])
         return ("undecided", [])
 
+    def evaluate(self, P: ClassInfo, Q: ClassInfo):
+        """Interprets the body as a decision tree for the kind pair: (kind, successors, deciding statement).
+        kind in 'base' | 'reduce' | 'raise' | 'undecided' | 'fallthrough'."""
+        env = {self.p: TypeVal(frozenset({P.qualname})), self.q: TypeVal(frozenset({Q.qualname}))}
+        succ: list[tuple[ClassInfo, ClassInfo]] = []
+        state = {"unknown": False}
+
+        def expr(ex: ast.AST) -> None:
+            for call, cenv in self._calls_with_env(ex, env):
+                if len(call.args) < 2:
+                    state["unknown"] = True
+                    continue
+                ta = self.te.eval(self.fn, call.args[0], cenv)
+                tb = self.te.eval(self.fn, call.args[1], cenv)
+                broad = {"Tensor", "ProjectiveTensor", "BoundTensor", "TensorCollection"}
+                if not ta.classes or not tb.classes or any(self.prog.classes[q].name in broad for q in ta.classes | tb.classes):
+                    state["unknown"] = True
+                    continue
+                for a in ta.classes:
+                    for b in tb.classes:
+                        for ca in self.prog.concrete_subclasses(self.prog.classes[a]):
+                            for cb in self.prog.concrete_subclasses(self.prog.classes[b]):
+                                succ.append((ca, cb))
+
+        def finish(st, is_raise=False):
+            if is_raise:
+                return ("raise", [], st)
+            if state["unknown"]:
+                return ("undecided", list(succ), st)
+            if succ:
+                return ("reduce", list(succ), st)
+            return ("base", [], st)
+
+        def block(stmts, owner):
+            for st in stmts:
+                if isinstance(st, ast.If):
+                    c = self.cond(st.test, P, Q)
+                    if c == T:
+                        r = block(st.body, st)
+                        if r is not None:
+                            return r
+                    elif c == F:
+                        r = block(st.orelse, st)
+                        if r is not None:
+                            return r
+                    elif self.is_eq_shortcut(st.test):
+                        continue  # value dependent short-cut: may be taken, does not change which formula is reached otherwise
+                    else:
+                        # an undecidable condition that guards only value-level variations (p.dim > 2 ...): follow both arms
+                        expr(st.test)
+                        saved = (list(succ), dict(env), dict(state))
+                        r1 = block(st.body, st)
+                        s1 = list(succ)
+                        succ[:] = saved[0]
+                        r2 = block(st.orelse, st)
+                        succ[:] = list({(a.qualname, b.qualname): (a, b) for a, b in s1 + succ}.values())
+                        if r1 is not None and r2 is not None:
+                            order = {"raise": 3, "undecided": 2, "reduce": 1, "base": 0}
+                            worst = r1 if order[r1[0]] >= order[r2[0]] else r2
+                            if worst[0] in ("reduce", "base") and succ:
+                                return ("reduce", list(succ), worst[2])
+                            return (worst[0], list(succ), worst[2])
+                        if r1 is not None or r2 is not None:
+                            # one arm returns, the other falls through: keep collecting successors of the fall-through path
+                            pending = r1 or r2
+                            rest = stmts[stmts.index(st) + 1:]
+                            r3 = block(rest, owner)
+                            if r3 is None:
+                                return pending
+                            order = {"raise": 3, "undecided": 2, "reduce": 1, "base": 0}
+                            worst = pending if order[pending[0]] >= order[r3[0]] else r3
+                            if worst[0] in ("reduce", "base") and succ:
+                                return ("reduce", list(succ), worst[2])
+                            return (worst[0], list(succ), worst[2])
+                elif isinstance(st, ast.Return):
+                    if st.value is not None:
+                        expr(st.value)
+                    return finish(owner if owner is not None else st)
+                elif isinstance(st, ast.Raise):
+                    return finish(owner if owner is not None else st, is_raise=True)
+                elif isinstance(st, ast.Assign):
+                    expr(st.value)
+                    if len(st.targets) == 1:
+                        self.te.bind(st.targets[0], self.te.eval(self.fn, st.value, env), env)
+                elif isinstance(st, ast.Expr):
+                    expr(st.value)
+                elif isinstance(st, (ast.For, ast.While)):
+                    if isinstance(st, ast.For):
+                        expr(st.iter)
+                        self.te.bind(st.target, self.te.iter_elem(self.te.eval(self.fn, st.iter, env)), env)
+                    r = block(st.body, owner)
+                    if r is not None:
+                        return r
+                elif isinstance(st, (ast.With, ast.Try)):
+                    r = block(st.body, owner)
+                    if r is not None:
+                        return r
+            return None
+
+        r = block(self.fn.node.body, None)
+        return r if r is not None else ("fallthrough", [], self.fn.node)
+
+    def static_isinstance_only(self, test: ast.AST) -> bool:
+        """the test consists of isinstance checks on the two parameters only (so 'never selected' is meaningful)"""
+        for n in ast.walk(test):
+            if isinstance(n, ast.Call) and not (isinstance(n.func, ast.Name) and n.func.id in ("isinstance", "type")):
+                return False
+            if isinstance(n, ast.Compare):
+                return False
+        return True
+
+    def decision_ifs(self) -> list[ast.If]:
+        """If statements whose body returns or raises directly: the branches of the dispatch."""
+        out = []
+        for n in ast.walk(self.fn.node):
+            if isinstance(n, ast.If) and any(isinstance(x, (ast.Return, ast.Raise)) for x in n.body):
+                out.append(n)
+        return out
+
     def select(self, P: ClassInfo, Q: ClassInfo) -> tuple[int | None, str]:
         for i, (test, _body, _st) in enumerate(self.branches):
             if test is None:
@@ -229,23 +348,20 @@ def analyse(run: Run, prog: Program, fn: FunctionInfo, documented: list[tuple[st
     d = Dispatch(prog, fn)
     rel = fn.module.rel
     n = 0
-    # ---- evaluate every ordered pair once
-    table: dict[tuple[str, str], tuple[int | None, str, str, list]] = {}
+    # ---- evaluate every ordered pair once (decision tree, nested branches included)
+    table: dict[tuple[str, str], tuple[object, str, str, list]] = {}
     for P in d.kinds:
         for Q in d.kinds:
-            idx, c = d.select(P, Q)
-            if idx is None:
+            kind, succ, st = d.evaluate(P, Q)
+            if kind == "fallthrough":
                 table[(P.qualname, Q.qualname)] = (None, "fallthrough", "undecided", [])
-                continue
-            if c == U:
-                table[(P.qualname, Q.qualname)] = (idx, "unknown-condition", "undecided", [])
-                continue
-            kind, succ = d.action(d.branches[idx][1], P, Q)
-            table[(P.qualname, Q.qualname)] = (idx, "selected", kind, [(a.qualname, b.qualname) for a, b in succ])
+            else:
+                table[(P.qualname, Q.qualname)] = (id(st), "selected", kind, [(a.qualname, b.qualname) for a, b in succ])
     n = len(table)
+    branch_nodes = d.decision_ifs()
     run.stats["dispatch_kinds"] = len(d.kinds)
     run.stats["dispatch_pairs"] = n
-    run.stats["dispatch_branches"] = len(d.branches)
+    run.stats["dispatch_branches"] = len(branch_nodes)
 
     # ---- outcome of a pair: follow reductions
     memo: dict[tuple[str, str], tuple[str, tuple | None]] = {}
@@ -288,26 +404,33 @@ def analyse(run: Run, prog: Program, fn: FunctionInfo, documented: list[tuple[st
         o = outcome(pair, frozenset())
         if o[0] == "cycle":
             cyc_by_branch.setdefault(idx, []).append(f"({short(pair[0])}, {short(pair[1])})")
-    for idx, (test, _body, st) in enumerate(d.branches):
+    for st in branch_nodes:
         loc = f"{rel}:{st.lineno}"
         label = norm_stmt(st)
-        if idx in cyc_by_branch:
-            pairs = sorted(set(cyc_by_branch[idx]))
+        if id(st) in cyc_by_branch:
+            pairs = sorted(set(cyc_by_branch[id(st)]))
             run.add("E9.1", fn.short, label, VIOLATION,
                     f"{fn.name} recurses without reaching a base case for the kind pairs {', '.join(pairs[:8])}"
                     f"{' ...' if len(pairs) > 8 else ''}: this branch is selected again with the same kinds (infinite recursion)",
                     loc, {"pairs": pairs})
         else:
-            sel = sum(1 for v in table.values() if v[0] == idx and v[1] == "selected")
-            run.add("E9.1", fn.short, label, PROVEN, f"selected by {sel} kind pair(s); every reduction from it terminates", loc)
+            sel = sum(1 for v in table.values() if v[0] == id(st) and v[1] == "selected")
+            run.add("E9.1", fn.short, label, PROVEN, f"decides {sel} kind pair(s); every reduction from it terminates", loc)
+    stray = [k for k in cyc_by_branch if k not in {id(b) for b in branch_nodes}]
+    for k in stray:
+        pairs = sorted(set(cyc_by_branch[k]))
+        run.add("E9.1", fn.short, "recursive call outside a branch", VIOLATION,
+                f"{fn.name} recurses without reaching a base case for the kind pairs {', '.join(pairs[:8])}", fn.loc, {"pairs": pairs})
 
     # ---- (2) dead branches
     run.rule("E9.2", "every branch of the dispatch is selected by some ordered pair of concrete kinds (information only)")
-    for idx, (test, _body, st) in enumerate(d.branches):
-        if test is None or d.is_eq_shortcut(test):
+    for st in branch_nodes:
+        if d.is_eq_shortcut(st.test):
             continue
-        sel = sum(1 for v in table.values() if v[0] == idx)
-        if sel == 0:
+        if any(isinstance(x, ast.If) for x in st.body):
+            continue  # an outer grouping branch: its inner branches are listed on their own
+        sel = sum(1 for v in table.values() if v[0] == id(st))
+        if sel == 0 and d.static_isinstance_only(st.test):
             run.add("E9.2", fn.short, norm_stmt(st), INFO, "branch is never selected: shadowed by an earlier branch", f"{rel}:{st.lineno}")
 
     # ---- (3)/(4) documented pairs reach the base formula in both orders
@@ -351,9 +474,11 @@ def analyse(run: Run, prog: Program, fn: FunctionInfo, documented: list[tuple[st
         "resolved __eq__ is kind-blind (compares shapes and coordinates but neither classes nor index types): a point and a "
         "line with equal coordinate vectors are different objects",
     )
-    for idx, (test, _body, st) in enumerate(d.branches):
-        if test is None or not d.is_eq_shortcut(test):
+    for st in [x for x in ast.walk(fn.node) if isinstance(x, ast.If)]:
+        test = st.test
+        if not d.is_eq_shortcut(test):
             continue
+        idx = st.lineno
         loc = f"{rel}:{st.lineno}"
         label = norm_stmt(st)
         blind = eq_is_kind_blind(prog)
@@ -374,9 +499,9 @@ def analyse(run: Run, prog: Program, fn: FunctionInfo, documented: list[tuple[st
                 if fam_p is fam_q:
                     continue
                 if d.cond(test, P, Q) != F:
-                    # only earlier branches could have caught the pair
-                    sel, _c = d.select(P, Q)
-                    if sel is not None and sel < idx:
+                    # only branches that return EARLIER in the text could have caught the pair
+                    kind, _succ, dst = d.evaluate(P, Q)
+                    if kind != "fallthrough" and getattr(dst, "lineno", 10 ** 9) < st.lineno:
                         continue
                     guarded = False
                     witness = witness or (P.name, Q.name)
